@@ -7,110 +7,145 @@
    Environment (at most MaxOps file operations, then the file stays as it is):
      Op(kind, c, fate)   kind in write / replace (atomic rename) / delete (c = "missing");
                          fate of the filesystem notification: "deliver" (queued, arrives
-                         at any later time), "drop" (lost), "dup" (queued twice)
+                         at any later time), "drop" (lost), "dup" (queued twice).
+                         Operations may also fall into the window of a running callback
+                         (CbOps: "none", "one" = at most one per callback, "both" = any).
    Loop (one goroutine):
      EvDeliver           a queued notification arrives: reconcile
      Tick                periodic reconciliation: reconcile
      reconcile           fingerprint the file; if it differs from `observed`, remember it
                          and (re)arm the debounce timer
-     Fire                debounce expires: if observed # evaluated, evaluated := observed
-                         and the callback runs; the callback itself reads the file
-                         (`loaded` := what it read)
-   Recheck = TRUE models the loop fingerprinting the file again when the debounce
-   expires and debouncing again if it moved on (so the callback evaluates what
-   it reads); Recheck = FALSE is the loop that trusts the fingerprint taken at
-   the last reconciliation.
+     Fire                debounce expires.  Recheck: fingerprint the file again and debounce
+                         again if it moved on.  Otherwise, if observed # evaluated, the
+                         callback starts for `observed` (CbStart is part of this step)
+     CbRead              the callback reads the file itself (`loaded` := what it read) and
+                         accepts or rejects what it read (Rejects)
+     CbEnd               the callback returns.  Record = "always": the fingerprint was
+                         recorded as evaluated when the callback started; "accept": only
+                         now and only if it accepted.  Post = "forget": if the file no
+                         longer carries that fingerprint the evaluation is forgotten and the
+                         debounce re-armed; "rearm": only re-armed; "none": nothing.
 
-   Safety: the callback never runs for a fingerprint equal to the last evaluated
-   one (so consecutive calls differ).  Liveness (WF on Tick and Fire, no state
-   constraint): once the file stays unchanged, eventually and forever
-   evaluated = file, and what the application loaded is the file's content. *)
+   The watch loop as it is: Recheck = TRUE, Post = "forget", Record = "always".
+   The other values are designs that look plausible and are wrong; TLC shows that they
+   reach a Hazard (the loop at rest although the callback did not run for, or the
+   application did not load, the file's content), and every behaviour that ends in a hazard
+   is exported as a scenario for the real loop.
+
+   Safety: the callback never starts for the fingerprint recorded as evaluated.
+   Liveness (WF on the loop's steps, no state constraint): once the file stays unchanged,
+   eventually and forever the callback has run for exactly that content and what the
+   application loaded is that content. *)
 EXTENDS Naturals, Sequences, FiniteSets, TLC, Json
 
 CONSTANTS Contents,   \* e.g. {"A", "B"}
           MaxOps,
           Kinds,      \* subset of {"write", "replace"}: how a content is put in place
           Fates,      \* subset of {"deliver", "drop", "dup"}: what happens to the notification
+          Rejects,    \* contents the callback rejects
+          CbOps,      \* "none" | "one" | "both": file operations inside a callback's window
           Recheck,    \* BOOLEAN
+          Post,       \* "none" | "rearm" | "forget"
+          Record,     \* "always" | "accept"
           Export      \* BOOLEAN: record behaviours (h) and print them as scenarios
 
-VARIABLES file, observed, evaluated, armed, pending, loaded, nops, calls, h
-vars == <<file, observed, evaluated, armed, pending, loaded, nops, calls, h>>
-View == <<file, observed, evaluated, armed, pending, loaded, nops, calls>>
+VARIABLES file, observed, evaluated, armed, pending, loaded, ran, cb, cand, cbn, nops, calls, h
+vars == <<file, observed, evaluated, armed, pending, loaded, ran, cb, cand, cbn, nops, calls, h>>
 
 Missing == "missing"
+Unknown == "unknown"
 
-Init == /\ file \in Contents
-        /\ observed = file /\ evaluated = file /\ loaded = file
-        /\ armed = FALSE /\ pending = 0 /\ nops = 0 /\ calls = <<>> /\ h = <<[a |-> "init", c |-> file]>>
+Init == /\ file \in Contents \ Rejects
+        /\ observed = file /\ evaluated = file /\ loaded = file /\ ran = file
+        /\ armed = FALSE /\ pending = 0 /\ nops = 0 /\ calls = <<>>
+        /\ cb = "idle" /\ cand = file /\ cbn = 0
+        /\ h = <<[a |-> "init", c |-> file]>>
 
-Log(e) == h' = IF Export THEN Append(h, e) ELSE h
+Log(es) == h' = IF Export THEN h \o es ELSE h
 
 Op(kind, c, fate) ==
     /\ nops < MaxOps
     /\ kind = "delete" <=> c = Missing
     /\ kind = "delete" => file # Missing
+    /\ cb # "idle" => (CbOps = "both" \/ (CbOps = "one" /\ cbn = 0))
+    /\ cbn' = IF cb # "idle" THEN cbn + 1 ELSE cbn
     /\ file' = c /\ nops' = nops + 1
     /\ pending' = IF fate = "drop" THEN pending
                   ELSE IF fate = "deliver" THEN (IF pending < 2 THEN pending + 1 ELSE 2)
                   ELSE 2
-    /\ Log([a |-> "op", kind |-> kind, c |-> c, fate |-> fate])
-    /\ UNCHANGED <<observed, evaluated, armed, loaded, calls>>
+    /\ Log(<<[a |-> "op", kind |-> kind, c |-> c, fate |-> fate]>>)
+    /\ UNCHANGED <<observed, evaluated, armed, loaded, ran, cb, cand, calls>>
 
 Reconcile == IF file # observed
                THEN observed' = file /\ armed' = TRUE
                ELSE UNCHANGED <<observed, armed>>
 
-EvDeliver == /\ pending > 0 /\ pending' = pending - 1
-             /\ Reconcile /\ Log([a |-> "ev"])
-             /\ UNCHANGED <<file, evaluated, loaded, nops, calls>>
+EvDeliver == /\ cb = "idle" /\ pending > 0 /\ pending' = pending - 1
+             /\ Reconcile /\ Log(<<[a |-> "ev"]>>)
+             /\ UNCHANGED <<file, evaluated, loaded, ran, cb, cand, cbn, nops, calls>>
 
 \* when exporting, only ticks that see a change are kept (the others change nothing)
-Tick == /\ (Export => file # observed)
-        /\ Reconcile /\ Log([a |-> "tick"])
-        /\ UNCHANGED <<file, evaluated, pending, loaded, nops, calls>>
+Tick == /\ cb = "idle" /\ (Export => file # observed)
+        /\ Reconcile /\ Log(<<[a |-> "tick"]>>)
+        /\ UNCHANGED <<file, evaluated, pending, loaded, ran, cb, cand, cbn, nops, calls>>
 
-Fire == /\ armed
-        /\ Log([a |-> "fire"])
+Fire == /\ cb = "idle" /\ armed
         /\ IF Recheck /\ file # observed
              THEN /\ observed' = file /\ armed' = TRUE           \* moved on: debounce again
-                  /\ UNCHANGED <<evaluated, loaded, calls>>
+                  /\ Log(<<[a |-> "fire"]>>)
+                  /\ UNCHANGED <<evaluated, ran, cb, cand, cbn, calls>>
              ELSE /\ armed' = FALSE /\ UNCHANGED observed
                   /\ IF observed # evaluated
-                       THEN /\ evaluated' = observed
-                            /\ loaded' = file                    \* the callback reads the file itself
+                       THEN /\ evaluated' = IF Record = "always" THEN observed ELSE evaluated
+                            /\ cand' = observed /\ ran' = observed /\ cb' = "started" /\ cbn' = 0
                             /\ calls' = Append(calls, observed)
-                       ELSE UNCHANGED <<evaluated, loaded, calls>>
-        /\ UNCHANGED <<file, pending, nops>>
+                            /\ Log(<<[a |-> "fire"], [a |-> "cbstart"]>>)
+                       ELSE /\ Log(<<[a |-> "fire"]>>)
+                            /\ UNCHANGED <<evaluated, ran, cb, cand, cbn, calls>>
+        /\ UNCHANGED <<file, pending, loaded, nops>>
+
+CbRead == /\ cb = "started" /\ cb' = "read"
+          /\ loaded' = file                                       \* the callback reads the file itself
+          /\ Log(<<[a |-> "cbread"]>>)
+          /\ UNCHANGED <<file, observed, evaluated, armed, pending, ran, cand, cbn, nops, calls>>
+
+CbEnd == /\ cb = "read" /\ cb' = "idle"
+         /\ Log(<<[a |-> "cbend"]>>)
+         /\ LET ev1 == IF Record = "accept" /\ loaded \notin Rejects THEN cand ELSE evaluated
+                moved == Post # "none" /\ file # cand
+            IN /\ evaluated' = IF moved /\ Post = "forget" THEN Unknown ELSE ev1
+               /\ IF moved THEN observed' = file /\ armed' = TRUE
+                           ELSE UNCHANGED <<observed, armed>>
+         /\ UNCHANGED <<file, pending, loaded, ran, cand, cbn, nops, calls>>
 
 Env == \/ \E k \in Kinds, c \in Contents, f \in Fates : Op(k, c, f)
        \/ \E f \in Fates : Op("delete", Missing, f)
-Next == Env \/ EvDeliver \/ Tick \/ Fire
+Loop == EvDeliver \/ Tick \/ Fire \/ CbRead \/ CbEnd
+Next == Env \/ Loop
 
 Spec == Init /\ [][Next]_vars
-FairSpec == Spec /\ WF_vars(Tick) /\ WF_vars(Fire)
+FairSpec == Spec /\ WF_vars(Tick) /\ WF_vars(Fire) /\ WF_vars(CbRead) /\ WF_vars(CbEnd)
 
 ----------------------------------------------------------------------------
 TypeOK == /\ file \in Contents \cup {Missing}
-          /\ observed \in Contents \cup {Missing} /\ evaluated \in Contents \cup {Missing}
-          /\ pending \in 0..2 /\ nops \in 0..MaxOps
+          /\ observed \in Contents \cup {Missing}
+          /\ evaluated \in Contents \cup {Missing, Unknown}
+          /\ pending \in 0..2 /\ nops \in 0..MaxOps /\ cb \in {"idle", "started", "read"}
 
-\* never a call for content equal to what was last evaluated: consecutive calls differ,
-\* and the first differs from the initial content
-NoRepeat == /\ \A i \in 1..(Len(calls) - 1) : calls[i] # calls[i + 1]
-            /\ Len(calls) > 0 => calls[Len(calls)] = evaluated
+\* never a call for the fingerprint recorded as evaluated
 NeverForEvaluated == [][calls' # calls => calls'[Len(calls')] # evaluated]_vars
 
-\* once the file stays unchanged: the loop has evaluated exactly that content ...
-Converges == <>[](evaluated = file)
-\* ... and the callback that evaluated it ran for that content (what was loaded is the file)
+\* once the file stays unchanged: the callback has run for exactly that content ...
+Converges == <>[](ran = file)
+\* ... and what the application loaded then is the file's content
 LoadsFinal == <>[](file # Missing => loaded = file)
 
-Quiet == nops = MaxOps /\ ~armed /\ pending = 0 /\ observed = file
-\* hazard: the loop is at rest although the application did not load the file's content
-Hazard == Quiet /\ file # Missing /\ loaded # file
-\* at rest with a stale load: from here only stuttering is possible, so LoadsFinal fails
+Quiet == nops = MaxOps /\ cb = "idle" /\ ~armed /\ pending = 0 /\ observed = file
+\* at rest, and the callback did not run for / the application did not load the file's
+\* content: from here only stuttering is possible, so Converges / LoadsFinal fail
+Hazard == Quiet /\ file # Missing /\ (loaded # file \/ ran # file)
 NoHazard == ~Hazard
-EmitHazard == (Export /\ Hazard) => PrintT(<<"SCEN", ToJson([steps |-> h, hazard |-> TRUE])>>)
-Emit == (Export /\ Quiet) => PrintT(<<"SCEN", ToJson([steps |-> h, hazard |-> Hazard])>>)
+Scen(hz) == ToJson([steps |-> h, hazard |-> hz, rejects |-> Rejects])
+EmitHazard == (Export /\ Hazard) => PrintT(<<"SCEN", Scen(TRUE)>>)
+Emit == (Export /\ Quiet) => PrintT(<<"SCEN", Scen(Hazard)>>)
 =============================================================================
